@@ -135,13 +135,29 @@ def assume(cond):
     p.add(e)
 
 
+def _timed(solver, timeout_s):
+    """check() with a watchdog thread (z3's timeout is not always honoured inside nlsat)"""
+    import threading
+
+    timer = threading.Timer(timeout_s + 1.0, solver.ctx.interrupt)
+    timer.daemon = True
+    timer.start()
+    try:
+        try:
+            return str(solver.check())
+        except z3.Z3Exception:
+            return "unknown"
+    finally:
+        timer.cancel()
+
+
 def _branch_check(p, cond):
     """feasibility of path and cond: incremental core first (fast, weak on nonlinear
     arithmetic), then a fresh non-incremental solver (nlsat) when that is unknown."""
     p.solver.push()
     p.solver.add(cond)
     p.solver.set("timeout", INCR_TIMEOUT_MS)
-    r = str(p.solver.check())
+    r = _timed(p.solver, INCR_TIMEOUT_MS / 1000.0)
     p.solver.pop()
     if r != "unknown":
         return r
@@ -150,7 +166,7 @@ def _branch_check(p, cond):
     s2.add(p.solver.assertions())
     s2.add(cond)
     STATS["branch_fresh"] = STATS.get("branch_fresh", 0) + 1
-    return str(s2.check())
+    return _timed(s2, BRANCH_TIMEOUT_MS / 1000.0)
 
 
 def decide(e):
